@@ -22,6 +22,17 @@ LLV = [0.0, -1.0, -50.0, -math.inf]
 UGRID = [0.0, math.exp(-1.0), 0.5, 0.999]
 
 
+
+KERNEL_IN_SYNC = None
+
+
+def setup():
+    # the API-level cases run the CURRENT kernel source (interpreted) when the compiled extension is stale
+    global KERNEL_IN_SYNC
+    import support as _S
+    KERNEL_IN_SYNC = _S.install_kernel()
+
+
 def cases(tier, seed):
     NS = (1, 2, 3) if tier == "quick" else (1, 2, 3, 4)
     for N in NS:
@@ -192,8 +203,11 @@ _api = {}
 def _api_setup(seed):
     if seed in _api:
         return _api[seed]
-    prior = S.default_prior()
-    data = S.make_data(6, seed)
+    prior = S.default_prior(s=True)       # a sampled jitter: the fifth nonlinear column differs from row to row
+    d0 = S.make_data(6, seed)
+    from thejoker import RVData
+    # weakly informative data: several of the 12 library rows are accepted, so that order / pairing clauses have witnesses
+    data = RVData(t=d0.t, rv=d0.rv * 0.05, rv_err=d0.rv_err * 20.0, t_ref=d0.t_ref)
     lib = prior.sample(size=12, rng=np.random.default_rng(seed), return_logprobs=True)
     path = os.path.join(S.OUTDIR, f"c02_lib_{os.getpid()}_{seed}.hdf5")
     if os.path.exists(path):
@@ -251,7 +265,7 @@ def _check_api(inp):
     uu = [float(x) for x in ev[0][2]]
     good = _expected([float(x) for x in all_ll], uu, inp["K"])
     want_rows = [order[k] for k in good]
-    for name in ("P", "e", "omega", "M0"):
+    for name in ("P", "e", "omega", "M0", "s"):
         want = ref[name][want_rows]
         got = samples[name]
         if len(got) != len(want) or not np.array_equal(got.to_value(want.unit), want.value):
